@@ -58,6 +58,12 @@ pub fn programs(tier: Tier) -> ProgramSet {
                     s.variants[i].serialize = vec!["z".into(), "abc".into()];
                     true
                 }));
+                // the WORD disabled inside a literal does not disable anything
+                devs.push(dev(format!("v{}.serialize=\"disabled\" + to_string=\"account-disabled\"", i), &[&format!("ser{}", i), &format!("tos{}", i)], move |s| {
+                    s.variants[i].serialize = vec!["disabled".into()];
+                    s.variants[i].to_string = Some("account-disabled".into());
+                    true
+                }));
                 // the longest literal is listed FIRST (the name is the longest, not the last one)
                 devs.push(dev(format!("v{}.serialize=[\"blue\",\"b\"]", i), &[&format!("ser{}", i)], move |s| {
                     s.variants[i].serialize = vec!["blue".into(), "b".into()];
